@@ -8,7 +8,8 @@
   `is_border` / `external` flags, the inner-triangle loop, `get_artifacts`, the grouping loop
   (`add_vertices_to_current`), `do_t3_transition` (`get_new_vid`), the isolated-cell removal — with the CPython
   object semantics that the code relies on:
-    * a Python list that is mutated while a `for` loop runs over it is read by position (`liveDel…`);
+    * a Python list that is mutated while a `for` loop runs over it is read by position (`liveDel…`, the
+      isolated-cell loop; the inner-triangle loop iterates over a copy of `ownEdges`);
     * `SmallEdge.__del__` runs when the last reference goes; the loop variable `e` of
       `for e in self.edges.values(): … e.external = …` keeps the *last* mesh edge alive until `e` is rebound
       (`pinned`); if that edge is deleted from the dict meanwhile its `__del__` does not run (`zombie`) and its id
@@ -220,46 +221,59 @@ def minOf : List Id → Option Id
   | [] => none
   | a :: l => some (l.foldl min a)
 
-/-- body of `for index in range(len(inner_edge_triangles) - 1)` -/
-def triStep (bigs : List (List Id)) (inner : List (Id × Id)) (sv : St × List (Id × Id)) (index : Nat) :
+/-- `same_ends = [e for e in self.all_big_edges if (e[0], e[-1]) == triangle_ends or (e[-1], e[0]) == triangle_ends]` -/
+def sameEnds (bigs : List (List Id)) (k : Id × Id) : List (List Id) :=
+  bigs.filter fun e => (e.headD 0, e.getLastD 0) == k || (e.getLastD 0, e.headD 0) == k
+
+/-- `max(l, key=len)`: the first of the longest (`none`: ValueError on an empty list) -/
+def firstLongest : List (List Id) → Option (List Id)
+  | [] => none
+  | a :: l => some (l.foldl (fun b x => if x.length > b.length then x else b) a)
+
+/-- `min(l, key=len)`: the first of the shortest -/
+def firstShortest : List (List Id) → Option (List Id)
+  | [] => none
+  | a :: l => some (l.foldl (fun b x => if x.length < b.length then x else b) a)
+
+/-- body of `for triangle_ends in inner_edge_triangles` -/
+def triStep (bigs : List (List Id)) (sv : St × List (Id × Id)) (k : Id × Id) :
     Except Err (St × List (Id × Id)) :=
   let st := sv.1
   let visited := sv.2
-  let fl := firstLast bigs
-  let k0 := inner.getD index (0, 0)
-  let k1 := inner.getD (index + 1) (0, 0)
-  if visited.contains k0 || visited.contains (k0.2, k0.1) then .ok sv
+  if visited.contains k || visited.contains (k.2, k.1) then .ok sv
   else
-    let i0 := ((indexOf? k0 fl).getD 0) % bigs.length
-    let i1 := ((indexOf? k1 fl).getD 0) % bigs.length
-    let e0 := bigs.getD i0 []
-    if e0.length > 3 then .ok sv
-    else
-      let e1 := bigs.getD i1 []
-      -- `np.setdiff1d(edge_0, edge_1)[0]`
+    let same := sameEnds bigs k
+    match firstLongest same, firstShortest same with
+    | some e0, some e1 =>
+      -- `extra_vertices = np.setdiff1d(edge_0, edge_1)` (sorted, unique); `vertex_id_to_delete = extra_vertices[0]`
       match minOf (e0.filter fun v => !e1.contains v) with
-      | none => .error .indexError
+      | none => .ok sv
       | some vdel =>
-        match st.getV vdel, st.getV (e0.headD 0) with
-        | .error e, _ => .error e
-        | .ok vx, tgt =>
-          -- `for cell_id in its_cells: self.cells[cell_id].replace_vertex(vertices[vdel], vertices[edge_0[0]])`
-          let cellsStep : Except Err Mesh :=
-            match vx.ownCells, tgt with
-            | [], _ => .ok st.mesh
-            | _ :: _, .error e => .error e
-            | cs, .ok t => foldE (fun m c => cellReplace m c vdel t.id) st.mesh cs
-          match cellsStep with
-          | .error e => .error e
-          | .ok m =>
-            let st := { st with mesh := m }
-            match liveDel ((st.mesh.ownEdges vdel).length + 1) st vdel 0 false with
+        if e0.length > 3 then .ok sv
+        else
+          match st.getV vdel, st.getV (e0.headD 0) with
+          | .error e, _ => .error e
+          | .ok vx, tgt =>
+            -- `for cell_id in its_cells: self.cells[cell_id].replace_vertex(vertices[vdel], vertices[edge_0[0]])`
+            let cellsStep : Except Err Mesh :=
+              match vx.ownCells, tgt with
+              | [], _ => .ok st.mesh
+              | _ :: _, .error e => .error e
+              | cs, .ok t => foldE (fun m c => cellReplace m c vdel t.id) st.mesh cs
+            match cellsStep with
             | .error e => .error e
-            | .ok st => .ok ({ st with dead := st.dead ++ [vdel] }, visited ++ [k0])
+            | .ok m =>
+              let st := { st with mesh := m }
+              -- `its_edges = list(ownEdges)`; `for edge_id in its_edges: del self.edges[edge_id]` (a snapshot; the
+              -- loop variable is not `e`, the pinned reference stays)
+              match foldE (fun st x => st.delEdge x) st (st.mesh.ownEdges vdel) with
+              | .error e => .error e
+              | .ok st => .ok ({ st with dead := st.dead ++ [vdel] }, visited ++ [k])
+    -- `max([])`: not reachable, a key of `first_last` is matched by the interface it comes from
+    | _, _ => .error .valueError
 
 def triangles (st : St) (bigs : List (List Id)) : Except Err St :=
-  let inner := dupKeys (firstLast bigs)
-  match foldE (triStep bigs inner) (st, []) (List.range (inner.length - 1)) with
+  match foldE (triStep bigs) (st, []) (dupKeys (firstLast bigs)) with
   | .error e => .error e
   | .ok sv => .ok sv.1
 
